@@ -12,7 +12,14 @@ func (*verifNoFallback) ShouldApplyFallbackValidation(data.HeaderHandler) bool {
 func (*verifNoFallback) IsInterfaceNil() bool                                  { return false }
 
 func Verif_C17_quorum() {
-	n := 1 + verifChoice("n", 20)
+	// group sizes: every size up to maxSmall, and larger ones around the byte/word boundaries of the bitmap
+	large := []int{57, 63, 64, 65, 100, 127, 128, 129, 400}
+	small := verifParam("maxSmall")
+	k := verifChoice("n", small+len(large))
+	n := k + 1
+	if k >= small {
+		n = large[k-small]
+	}
 	keys := make([]string, n)
 	for i := range keys {
 		keys[i] = string(rune('a' + i))
